@@ -18,5 +18,5 @@ Extraction "model.ml"
   from_csv_string from_csv_file to_csv_formatted to_csv csv_safe table_rows to_string_formatted display_table uwidth clean_rowsb
   bf_tv spec_essential spec_support spec_equiv spec_implies env_of
   py_exec py_eval_checked exc_of_missing_file py_new
-  obj_dom_count obj_dom_steps obj_img_steps obj_rel_steps obj_sup_steps obj_dom_nth obj_rel_nth obj_img_count obj_dom_last obj_dom_rest obj_img_rest e_rename rn obj_point_valuation csv_duplicate_name
+  obj_dom_count obj_dom_steps obj_img_steps obj_rel_steps obj_sup_steps obj_dom_nth obj_rel_nth obj_img_count obj_dom_last obj_dom_rest obj_img_rest e_rename rn obj_point_valuation csv_duplicate_name csv_bad_cell
   N.of_nat N.to_nat.
